@@ -1401,11 +1401,28 @@ impl Gen {
                 fopts.extend_from_slice(&[0x0A, (t0 % 3) as u8, df[0], df[1], df[2]]);
                 fopts.extend_from_slice(&[0x03, (dr << 4) | 0x0f, 0xff, 0xff, 0x60]);
             }
+            // Redefinition (dynamic plans): step t%5 == 2 defines a channel that is not a join channel, maps a
+            // downlink frequency to it and leaves only it enabled; step t%5 == 3 redefines the same channel with
+            // another uplink frequency: the uplinks after each step show where RX1 opens for that channel (a
+            // redefined channel is a new channel: no residue of the old mapping).  Sent as a port-0 payload (the
+            // three commands do not fit FOpts).
+            let mut port0: Vec<u8> = vec![];
+            if !fixed && (t % 5 == 2 || t % 5 == 3) {
+                let idx = 3 + ((t / 5) % 4) as u8;
+                let f_up = freq3(lo + 100_000 * (idx as u32 + if t % 5 == 2 { 1 } else { 9 }));
+                port0.extend_from_slice(&[0x07, idx, f_up[0], f_up[1], f_up[2], 0x50]);
+                if t % 5 == 2 {
+                    let df = freq3(lo + 100_000 * ((t as u32) % 7));
+                    port0.extend_from_slice(&[0x0A, idx, df[0], df[1], df[2]]);
+                }
+                let m: u16 = 1 << idx;
+                port0.extend_from_slice(&[0x03, 0xff, m as u8, (m >> 8) as u8, 0x01]);
+            }
             let (nwk, app, addr) = v.keys.unwrap();
             let net = Net { nwk, app, addr, sent: vec![] };
             let n = v.fcnt_down.map(|x| x + 1).unwrap_or(0);
-            let b = net.data(n, false, false, &fopts, -1, &[], false, false);
-            plan.rx1.push(Frame { bytes: b, snr: 3, intent: format!("auth:rxwin:dr={dr}:off={off}:rx2={rx2dr}:del={del}") });
+            let b = if port0.is_empty() { net.data(n, false, false, &fopts, -1, &[], false, false) } else { net.data(n, false, false, &[], 0, &port0, false, false) };
+            plan.rx1.push(Frame { bytes: b, snr: 3, intent: format!("auth:rxwin:dr={dr}:off={off}:rx2={rx2dr}:del={del}:redef={}", port0.len()) });
         }
         let draws = if fixed { vec![(tuple as u32 * 3 + phase as u32 * 17) % 64] } else { vec![(tuple + phase) as u32] };
         Some(Op::Send { port: 2, data: vec![phase as u8], confirmed: phase == 2 && tuple % 2 == 0, draws, plan })
